@@ -12,6 +12,15 @@
 //   vec.sort_ord <ints>                 Vector<i64>::sort() (the Ord-bounded method), as rationals n/1
 //   vec.pardot <v> <w> <reps> <busy>    num_cpus::get() as seen in this process, dot_f64 <reps> times (with <busy>
 //                                       spinning background threads), then the sequential dot   [f64]
+//   (specB) extended vec.hist ops, SEARCH-ONLY (no model constructor; judged by the python list model): cmp <w> (== and !=),
+//       cmp_self (== / != against itself, the same object, and against a clone), dot_self / add_self / sub_self (both operands
+//       the same object), field (the public field .vec read directly), sort_desc / sort_absdesc (sort_by with a comparator that is
+//       NOT the ascending order), clone_into <w> (Clone::clone_from with target w, source v), clone_from <w> (target v),
+//       norms <p> [f64: norm_1 norm_2 norm_p norm_inf of the CURRENT vector], scale_l <s> [f64], cxview [cplx: conj real abs
+//       norm_inf of the current vector], dot_f64 <w> [f64: num_cpus, dot_f64 twice, dot]
+//   vec.pardot_self <v> <reps> <busy>   like vec.pardot with BOTH operands the same object: v.dot_f64(&v)          [f64]
+//   vec.pardot_after <v0> <w> <reps> <busy> (<op> <args> ;)*   the edits are applied to v0 (vec.hist ops, output discarded), w gets
+//                                       spare capacity (push + pop), then as vec.pardot on the edited vector      [f64]
 use std::panic::{catch_unwind, AssertUnwindSafe};
 use std::sync::atomic::{AtomicBool, Ordering};
 use std::sync::Arc;
@@ -31,14 +40,44 @@ fn check_same<T: Elt>(a: &Vector<T>, snap: &Vector<T>, what: &str) {
 // what is not available for every element type
 pub trait VX: Elt {
     fn resize(_v: &mut Vector<Self>, _n: usize) { panic!("harness: resize n/a for this element type"); }
+    // element-type specific views of the CURRENT vector of a history (specB): everything is computed first and emitted
+    // afterwards, so a panicking view emits nothing before its P token
+    fn norms(_v: &Vector<Self>, _p: f64, _out: &mut Out) { panic!("harness: norms n/a for this element type"); }
+    fn scale_l(_v: &Vector<Self>, _s: f64, _out: &mut Out) { panic!("harness: scale_l n/a for this element type"); }
+    fn cxview(_v: &Vector<Self>, _out: &mut Out) { panic!("harness: cxview n/a for this element type"); }
+    fn dot_f64(_v: &Vector<Self>, _w: &Vector<Self>, _out: &mut Out) { panic!("harness: dot_f64 n/a for this element type"); }
 }
 impl VX for Rat { fn resize(v: &mut Vector<Rat>, n: usize) { v.resize(n); } }
-impl VX for f64 { fn resize(v: &mut Vector<f64>, n: usize) { v.resize(n); } }
-impl VX for Cmplx {}
+impl VX for f64 {
+    fn resize(v: &mut Vector<f64>, n: usize) { v.resize(n); }
+    fn norms(v: &Vector<f64>, p: f64, out: &mut Out) {
+        let snap = v.clone();
+        let r = [v.norm_1(), v.norm_2(), v.norm_p(p), v.norm_inf()];
+        check_same(v, &snap, "norms");
+        for x in r { out.f(x); }
+    }
+    fn scale_l(v: &Vector<f64>, s: f64, out: &mut Out) { let r = s * v.clone(); out.v(&r); }
+    fn dot_f64(v: &Vector<f64>, w: &Vector<f64>, out: &mut Out) {
+        let (sv, sw) = (v.clone(), w.clone());
+        let r = [v.dot_f64(w), v.dot_f64(w), v.dot(w)];
+        check_same(v, &sv, "dot_f64"); check_same(w, &sw, "dot_f64");
+        out.usize(num_cpus::get());
+        for x in r { out.f(x); }
+    }
+}
+impl VX for Cmplx {
+    fn cxview(v: &Vector<Cmplx>, out: &mut Out) {
+        let snap = v.clone();
+        let (c, r, a, n) = (v.conj(), v.real(), v.abs(), v.norm_inf());
+        check_same(v, &snap, "conj/real/abs/norm_inf");
+        out.v(&c); out.v(&r); out.v(&a); out.f(n);
+    }
+}
 
 // the &mut self operations: the state is reported after them (and after every panic)
-const MUTATING: [&str; 18] = ["push", "push_front", "insert", "pop", "swap", "resize", "assign", "clear", "sort", "set",
-    "add_assign", "sub_assign", "add_assign_s", "sub_assign_s", "mul_assign_s", "div_assign_s", "clone_mut", "_"];
+const MUTATING: [&str; 21] = ["push", "push_front", "insert", "pop", "swap", "resize", "assign", "clear", "sort", "set",
+    "add_assign", "sub_assign", "add_assign_s", "sub_assign_s", "mul_assign_s", "div_assign_s", "clone_mut", "_",
+    "sort_desc", "sort_absdesc", "clone_from"];
 
 fn step<T: VX>(v: &mut Vector<T>, op: &str, a: &mut Args, out: &mut Out) {
     match op {
@@ -89,6 +128,27 @@ fn step<T: VX>(v: &mut Vector<T>, op: &str, a: &mut Args, out: &mut Out) {
             let x = a.s::<T>(); let snap = v.clone(); let mut c = v.clone();
             c.assign(x); c.push(x); check_same(v, &snap, "clone.assign");
             let csnap = c.clone(); v.push(x); check_same(&c, &csnap, "orig.push"); }
+        // ---- specB: forms and trait impls that no other op reaches (search-only ops)
+        "cmp" => { let w = a.v::<T>(); let (s1, s2) = (v.clone(), w.clone());
+            let (e, n) = (*v == w, *v != w);
+            check_same(v, &s1, "=="); check_same(&w, &s2, "==");
+            out.boolean(e); out.boolean(n); }
+        "cmp_self" => { let c = v.clone();
+            #[allow(clippy::eq_op)]
+            let r = [*v == *v, *v != *v, *v == c, *v != c, c == *v, c != *v];
+            for b in r { out.boolean(b); } }
+        "dot_self" => { let snap = v.clone(); let d = v.dot(&*v); check_same(v, &snap, "dot(self)"); out.s(&d); }
+        "add_self" => { let snap = v.clone(); let r = &*v + &*v; check_same(v, &snap, "+(self)"); out.v(&r); }
+        "sub_self" => { let snap = v.clone(); let r = &*v - &*v; check_same(v, &snap, "-(self)"); out.v(&r); }
+        "field" => { out.usize(v.vec.len()); for x in v.vec.iter() { out.s(x); } }
+        "sort_desc" => { v.sort_by(|x, y| y.partial_cmp(x).unwrap()); }
+        "sort_absdesc" => { v.sort_by(|x, y| y.abs().partial_cmp(&x.abs()).unwrap().then(y.partial_cmp(x).unwrap())); }
+        "clone_into" => { let mut w = a.v::<T>(); let snap = v.clone(); w.clone_from(&*v); check_same(v, &snap, "clone_from(source)"); out.v(&w); }
+        "clone_from" => { let w = a.v::<T>(); let snap = w.clone(); v.clone_from(&w); check_same(&w, &snap, "clone_from(source)"); }
+        "norms" => { let p = a.f64(); T::norms(v, p, out); }
+        "scale_l" => { let s = a.f64(); T::scale_l(v, s, out); }
+        "cxview" => { T::cxview(v, out); }
+        "dot_f64" => { let w = a.v::<T>(); T::dot_f64(v, &w, out); }
         _ => panic!("harness: unknown vector op {}", op),
     }
 }
@@ -184,6 +244,37 @@ pub fn run<T: VX>(kind: &str, a: &mut Args, out: &mut Out) {
         }
         "vec.pardot" => {
             let v = a.v::<f64>(); let w = a.v::<f64>(); let reps = a.usize(); let busy = a.usize();
+            let (sv, sw) = (v.clone(), w.clone());
+            out.usize(num_cpus::get());
+            let mut rs: Vec<f64> = Vec::new();
+            spin(busy, &mut || { for _ in 0..reps { rs.push(v.dot_f64(&w)); } });
+            for r in rs { out.f(r); }
+            check_same(&v, &sv, "dot_f64"); check_same(&w, &sw, "dot_f64");
+            out.f(v.dot(&w));
+        }
+        "vec.pardot_self" => {
+            let v = a.v::<f64>(); let reps = a.usize(); let busy = a.usize();
+            let sv = v.clone();
+            out.usize(num_cpus::get());
+            let mut rs: Vec<f64> = Vec::new();
+            spin(busy, &mut || { for _ in 0..reps { rs.push(v.dot_f64(&v)); } });
+            for r in rs { out.f(r); }
+            check_same(&v, &sv, "dot_f64(self)");
+            out.f(v.dot(&v));
+        }
+        "vec.pardot_after" => {
+            let mut v = a.v::<f64>(); let mut w = a.v::<f64>(); let reps = a.usize(); let busy = a.usize();
+            let mut scratch = Out::new();
+            while a.more() {
+                let op = a.word();
+                let r = catch_unwind(AssertUnwindSafe(|| step(&mut v, op, a, &mut scratch)));
+                if r.is_err() {
+                    let msg = crate::LAST_PANIC.with(|p| p.borrow().clone());
+                    if crate::classify(&msg) == "harness" { panic!("{}", msg); }
+                }
+                while a.more() { if a.word() == ";" { break; } }
+            }
+            w.push(0.0); w.pop();                                   // capacity of w differs from its length
             let (sv, sw) = (v.clone(), w.clone());
             out.usize(num_cpus::get());
             let mut rs: Vec<f64> = Vec::new();
